@@ -46,6 +46,18 @@
 //!     when some distribution satisfies every instance.
 //! Violations of R-answer in such a group are reported as `C07/answer/repeated-request/...`.
 //!
+//! Soundness correction (red-team round): the statement quantifies over the requests the manager ACCEPTS and keys
+//! the answer on the client order id. A request for a (kind, cid) that is still OUTSTANDING at the manager (an
+//! earlier instance was forwarded to the client and was neither answered nor timed out when this one was handed
+//! over) need not be accepted: if the manager never calls the client for it, it may stay without an event of its
+//! own (coalesced with the outstanding request, whose single answer resolves the order) or be refused at once
+//! with one failure event (not compared with any client answer). Everything else is unchanged: an instance handed
+//! over after the earlier one was answered or timed out must be answered; an instance that was forwarded must be
+//! answered; a request with another cid is never excused. Client calls are attributed to instances by content AND
+//! by the hand-over after which they were made. Where such a request meets the due timeout of its twin in one
+//! instant, select!'s start branch decides which the manager sees first - both outcomes are allowed, and the
+//! determinism self-check does not count such a schedule as a machinery failure.
+//!
 //! Further dimensions (hardening rounds):
 //!   * builder path (cfg 2, 3): the same schedules with the subject built by `ExecutionBuilder::add_live` for two
 //!     exchanges -> `ExecutionManager::init` (account stream + snapshot, response channel merged with the
@@ -274,11 +286,16 @@ struct Call {
     open: Option<RequestOpen>,
     cancel: Option<RequestCancel>,
     tx: Option<PendingTx>,
+    /// number of requests handed over when the client was called (see `ScriptClient::epoch`)
+    epoch: usize,
 }
 
 #[derive(Clone, Default)]
 struct ScriptClient {
     calls: Arc<Mutex<Vec<Call>>>,
+    /// number of requests of the batch handed over so far (set by `Sim::hand`): a call made while it reads e
+    /// belongs to an instance whose hand-over ended with e requests handed (the manager runs after every hand-over)
+    epoch: Arc<std::sync::atomic::AtomicUsize>,
 }
 
 fn owned_key(k: &OrderKey<ExchangeId, &InstrumentNameExchange>) -> OrderKey<ExchangeId, InstrumentNameExchange> {
@@ -326,6 +343,7 @@ impl ExecutionClient for ScriptClient {
             open: None,
             cancel: Some(request.state.clone()),
             tx: Some(PendingTx::Cancel(tx)),
+            epoch: self.epoch.load(Ordering::SeqCst),
         });
         async move {
             match rx.await {
@@ -346,6 +364,7 @@ impl ExecutionClient for ScriptClient {
             open: Some(request.state.clone()),
             cancel: None,
             tx: Some(PendingTx::Open(tx)),
+            epoch: self.epoch.load(Ordering::SeqCst),
         });
         async move {
             match rx.await {
@@ -687,6 +706,9 @@ struct Exec {
     /// per repeated request instance: (position, state of the previous instance of the same (kind, cid)
     /// at the moment this one was handed over)
     repeats: Vec<(usize, &'static str)>,
+    /// a request was handed over at the very instant the timeout of an outstanding request for the same
+    /// (kind, cid) fell due, before the manager had run
+    twin_race: bool,
     terminated: bool,
     trace: Vec<String>,
 }
@@ -733,6 +755,14 @@ struct Sim<'a> {
     /// the current action happens before the manager has seen the new instant
     not_yet_run: bool,
     repeats: Vec<(usize, &'static str)>,
+    /// per instance: number of requests handed over when its hand-over (single or burst) ended = the epoch of
+    /// its client call, if the manager forwards it
+    run_epoch: Vec<usize>,
+    /// per instance: the earlier instances of the same (kind, cid) that were still unresolved in time when it
+    /// was handed over (not answered by the client, deadline not passed - or due at this very instant with the
+    /// manager not yet run)
+    twin_outstanding: Vec<Vec<usize>>,
+    twin_race: bool,
     /// run() returned (or panicked) before Shutdown / channel close
     stopped_early: bool,
     rt: tokio::runtime::Runtime,
@@ -790,6 +820,9 @@ impl<'a> Sim<'a> {
             now: 0,
             not_yet_run: false,
             repeats: Vec::new(),
+            run_epoch: vec![0; n],
+            twin_outstanding: vec![Vec::new(); n],
+            twin_race: false,
             stopped_early: false,
             rt,
         }
@@ -832,9 +865,18 @@ impl<'a> Sim<'a> {
 
     /// hand the next `k` requests of the batch to the manager (without running it in between)
     fn hand(&mut self, k: usize) {
+        let first = self.next;
         for _ in 0..k {
             let i = self.next;
             let (batch, now) = (self.batch, self.now);
+            self.twin_outstanding[i] = (0..i)
+                .filter(|j| batch[*j] == batch[i] && self.completed[*j].is_none())
+                .filter(|j| {
+                    let dl = self.handed_at[*j].unwrap() + self.timeout_ms;
+                    now < dl || (now == dl && self.not_yet_run)
+                })
+                .collect();
+            self.twin_race |= self.twin_outstanding[i].iter().any(|j| self.handed_at[*j].unwrap() + self.timeout_ms == now);
             if let Some(prev) = (0..i).rev().find(|j| batch[*j] == batch[i]) {
                 let dl = self.handed_at[prev].unwrap() + self.timeout_ms;
                 self.repeats.push((i, match self.completed[prev] {
@@ -854,11 +896,15 @@ impl<'a> Sim<'a> {
             self.trace.push(format!("t={now}: hand #{i} {:?}", batch[i]));
             self.next += 1;
         }
+        for i in first..self.next {
+            self.run_epoch[i] = self.next;
+        }
+        self.client.epoch.store(self.next, Ordering::SeqCst);
     }
 
     /// the client answers request instance `i` with `b` (no manager run)
     fn answer(&mut self, i: usize, b: Beh) {
-        let existed = complete(&self.client, self.batch, b, i);
+        let existed = complete(&self.client, self.batch, &self.run_epoch, b, i);
         self.completed[i] = Some((self.now, b, existed));
         self.trace.push(format!("t={}: client answers #{i} with {b:?}{}", self.now, if existed { "" } else { " (client was never called: void)" }));
     }
@@ -1076,9 +1122,20 @@ impl Sim<'_> {
                 _ => Expect::Timeout,
             }
         };
-        let admits = |e: &Expect, c: &Class| match e {
+        // "every open or cancel request it ACCEPTS": a request for a (kind, cid) that is already outstanding at the
+        // manager (an earlier instance was forwarded to the client and neither answered nor timed out when this one
+        // was handed over) need not be accepted - the statement keys the answer on the client order id, and the
+        // outstanding request's answer resolves that order. Such an instance, if the manager never called the
+        // client for it, may stay without an event of its own (coalesced) or be refused with one failure event.
+        let may_skip: Vec<bool> = {
+            let calls = self.client.calls.lock().unwrap();
+            let has_call = |i: usize| find_call(&calls, batch, &self.run_epoch, i).is_some();
+            (0..n).map(|j| handed_at[j].is_some() && !has_call(j) && self.twin_outstanding[j].iter().any(|i| has_call(*i))).collect()
+        };
+        let admits = |m: usize, c: &Class| match expect_of(m) {
             Expect::Response(_) => *c == Class::Response,
-            Expect::Timeout => *c == Class::Timeout,
+            // (an instance that need not be accepted has no client call, hence expects "timeout")
+            Expect::Timeout => *c == Class::Timeout || may_skip[m],
             Expect::Either(_) => true,
         };
         // events attributed to each request instance
@@ -1129,14 +1186,16 @@ impl Sim<'_> {
             for (e, class) in rest {
                 let empty = |m: &&usize| mine[**m].is_empty();
                 let strict = |m: &&usize| !matches!(expect_of(**m), Expect::Either(_));
+                // (an instance that need not be accepted takes an event only when no other instance can)
                 let target = members
                     .iter()
                     .filter(empty)
-                    .filter(|m| admits(&expect_of(**m), &class))
+                    .filter(|m| !may_skip[**m] && admits(**m, &class))
                     .find(strict)
-                    .or_else(|| members.iter().filter(empty).find(|m| admits(&expect_of(**m), &class)))
+                    .or_else(|| members.iter().filter(empty).find(|m| !may_skip[**m] && admits(**m, &class)))
+                    .or_else(|| members.iter().filter(empty).find(|m| admits(**m, &class)))
                     .or_else(|| members.iter().find(empty))
-                    .or_else(|| members.iter().find(|m| admits(&expect_of(**m), &class)))
+                    .or_else(|| members.iter().find(|m| admits(**m, &class)))
                     .unwrap_or(&members[0]);
                 mine[*target].push(e);
             }
@@ -1154,7 +1213,12 @@ impl Sim<'_> {
                 let (at, ev) = &events[*e];
                 let Some((class, problems)) = judge_event(w, r, i, &key, completed[i].map(|c| c.1), ev) else { continue };
                 used[*e] = true;
+                // a refusal is the manager's own failure notice, not a client answer: nothing to compare it with
+                let refusal = may_skip[i] && class == Class::Response && is_failure(ev);
                 for (field, detail) in problems {
+                    if refusal && field == "content" {
+                        continue;
+                    }
                     let c = if class == Class::Timeout { "timeout" } else { "response" };
                     viols.push((
                         if field == "content" {
@@ -1181,6 +1245,7 @@ impl Sim<'_> {
                 Expect::Timeout => ("timeout", got == "timeout"),
                 Expect::Either(_) => ("either", got == "response" || got == "timeout"),
             };
+            let ok = ok || (may_skip[i] && (got == "none" || got == "response"));
             if !ok && got == "none" && self.stopped_early {
                 // consequence of the manager having stopped: folded into one signature below
                 unanswered.push(format!("#{i} {r:?} (expected {exp_s})"));
@@ -1231,32 +1296,36 @@ impl Sim<'_> {
                 ));
             }
         }
-        Exec { viols, outcome, repeats: std::mem::take(&mut self.repeats), terminated, trace: std::mem::take(&mut self.trace) }
+        Exec { viols, outcome, repeats: std::mem::take(&mut self.repeats), twin_race: self.twin_race, terminated, trace: std::mem::take(&mut self.trace) }
     }
 }
 
 
 
-/// Complete the client future of the request INSTANCE at position `pos` of the batch; false if the
-/// manager never called the client for it. The client call of an instance is recognised by kind, cid
-/// and request content (side/price/quantity.. of an open, order id of a cancel: distinct per position
-/// except for two id-less cancels of one cid); among calls that look the same the k-th call belongs to
-/// the k-th such instance (requests are handed over, and taken from the request stream, in batch order).
-fn complete(client: &ScriptClient, batch: &[Req], b: Beh, pos: usize) -> bool {
-    let mut calls = client.calls.lock().unwrap();
+/// The client call of the request instance at `pos`: same kind, cid and content, made in the manager run that
+/// followed the hand-over of `pos` (so that a later instance with the same content - forwarded although `pos`
+/// was not - is never taken for it); among instances handed over together that look the same, in batch order.
+fn find_call(calls: &[Call], batch: &[Req], run_epoch: &[usize], pos: usize) -> Option<usize> {
     let r = &batch[pos];
     let cid = cid_of(r.cid);
-    let ordinal = (0..pos).filter(|j| same_content(batch, *j, pos)).count();
+    let ordinal = (0..pos).filter(|j| same_content(batch, *j, pos) && run_epoch[*j] == run_epoch[pos]).count();
     let (open, cancel) = match r.kind {
         Kind::Open => (Some(open_state(pos)), None),
         Kind::Cancel => (None, Some(cancel_state(pos))),
     };
-    let Some(call) = calls
-        .iter_mut()
-        .filter(|c| c.kind == r.kind && c.key.cid == cid && c.open == open && c.cancel == cancel)
+    calls
+        .iter()
+        .enumerate()
+        .filter(|(_, c)| c.kind == r.kind && c.key.cid == cid && c.open == open && c.cancel == cancel && c.epoch == run_epoch[pos])
+        .map(|(k, _)| k)
         .nth(ordinal)
-        .filter(|c| c.tx.is_some())
-    else {
+}
+
+/// Complete the client future of the request INSTANCE at position `pos` of the batch; false if the
+/// manager never called the client for it (see `find_call`).
+fn complete(client: &ScriptClient, batch: &[Req], run_epoch: &[usize], b: Beh, pos: usize) -> bool {
+    let mut calls = client.calls.lock().unwrap();
+    let Some(call) = find_call(&calls, batch, run_epoch, pos).map(|k| &mut calls[k]).filter(|c| c.tx.is_some()) else {
         return false;
     };
     match call.tx.take().unwrap() {
@@ -1320,6 +1389,14 @@ fn tag_of_error(e: &OrderError) -> Option<usize> {
         OrderError::Rejected(ApiError::OrderRejected(text)) => text.strip_prefix("scripted rejection #")?.parse().ok(),
         OrderError::Connectivity(ConnectivityError::Socket(text)) => text.strip_prefix("scripted socket error #")?.parse().ok(),
         _ => None,
+    }
+}
+/// an open-failed / cancel-failed event
+fn is_failure(ev: &AccountStreamEvent) -> bool {
+    match ev {
+        RcEvent::Item(AccountEvent { kind: AccountEventKind::OrderSnapshot(Snapshot(o)), .. }) => matches!(&o.state, OrderState::Inactive(InactiveOrderState::OpenFailed(_))),
+        RcEvent::Item(AccountEvent { kind: AccountEventKind::OrderCancelled(c), .. }) => c.state.is_err(),
+        _ => false,
     }
 }
 fn tag_of_id(id: &OrderId) -> Option<usize> {
@@ -1445,6 +1522,9 @@ struct Tally {
     answered_by_timeout: AtomicU64,
     race_at_deadline: AtomicU64,
     selfchecks: AtomicU64,
+    /// self-checked schedules whose two executions differed (both allowed) where a repeated request met the due
+    /// timeout of its outstanding twin
+    selfchecks_twin_race: AtomicU64,
     repeats: Mutex<std::collections::BTreeMap<&'static str, u64>>,
     /// schedules whose two executions differed although neither broke a rule: (count, smallest case)
     nondeterministic: Mutex<(u64, Option<(u64, Value)>)>,
@@ -1462,7 +1542,13 @@ fn explore_batch(ctx: &Ctx, cfg: Cfg, batch: &[Req], p: &Params, bound: Option<u
             let ex2 = execute(cfg, batch, p, &mut ch2);
             let sigs = |e: &Exec| e.viols.iter().map(|v| v.0.clone()).collect::<Vec<_>>();
             if ex2.outcome != ex.outcome || sigs(&ex2) != sigs(&ex) || ex2.terminated != ex.terminated {
-                if ex.viols.is_empty() && ex2.viols.is_empty() {
+                // A request handed over at the very instant the timeout of an outstanding request for the same
+                // (kind, cid) falls due, before the manager has run: whether the manager meets the new request or
+                // the timeout first is select!'s (not enumerated) choice, and a manager that does not accept a
+                // request for an already outstanding (kind, cid) then legitimately answers differently.
+                if ex.viols.is_empty() && ex2.viols.is_empty() && (ex.twin_race || ex2.twin_race) {
+                    t.selfchecks_twin_race.fetch_add(1, Ordering::Relaxed);
+                } else if ex.viols.is_empty() && ex2.viols.is_empty() {
                     // Same schedule, different (each time allowed) observations. If the whole run finds no
                     // violation this is a machinery failure (exit 2, decided at the end of `run`); if it does,
                     // the subject itself is schedule-dependent beyond what the harness controls (e.g. a shared
@@ -1610,6 +1696,7 @@ pub fn run(ctx: &Ctx) -> Outcome {
         answered_by_timeout: AtomicU64::new(0),
         race_at_deadline: AtomicU64::new(0),
         selfchecks: AtomicU64::new(0),
+        selfchecks_twin_race: AtomicU64::new(0),
         repeats: Mutex::new(Default::default()),
         nondeterministic: Mutex::new((0, None)),
         distinct: Distinct::default(),
@@ -1720,6 +1807,7 @@ pub fn run(ctx: &Ctx) -> Outcome {
             "requests_racing_at_deadline": t.race_at_deadline.load(Ordering::Relaxed),
             "determinism_selfchecks": t.selfchecks.load(Ordering::Relaxed),
             "selfchecks_subject_schedule_dependent": nondet.0,
+            "selfchecks_differing_only_at_a_repeated_request_racing_its_twins_timeout": t.selfchecks_twin_race.load(Ordering::Relaxed),
             "repeated_requests_by_state_of_previous_instance": *t.repeats.lock().unwrap(),
             "exhaustive": all_exhaustive,
             "plans": per_plan,
@@ -1732,7 +1820,7 @@ pub fn run(ctx: &Ctx) -> Outcome {
             "samples": t.samples.lock().unwrap().values().cloned().collect::<Vec<_>>(),
         }),
         assumptions: vec![
-            "an open and a cancel may share a cid; in the 'repeat' plans the same (kind, cid) is requested two or more times (after the earlier one was answered / timed out / while outstanding): every instance needs its own single answer, events without an instance tag (cancel timeouts) are matched per (kind, cid) as a multiset of answer classes; forwarding or not de-duplicating repeated requests is neither demanded nor forbidden".into(),
+            "an open and a cancel may share a cid; in the 'repeat' plans the same (kind, cid) is requested two or more times (after the earlier one was answered / timed out / while outstanding): every instance needs its own single answer, events without an instance tag (cancel timeouts) are matched per (kind, cid) as a multiset of answer classes; forwarding or not de-duplicating repeated requests is neither demanded nor forbidden; a repeated request handed over while an earlier request for the same (kind, cid) is still outstanding at the manager need not be accepted (no client call: no own event, or one refusal)".into(),
             "requests name instruments configured for the manager's exchange (the code panics otherwise by design)".into(),
             "the client echoes the order key it was called with; its error answers are an API rejection naming no asset / instrument, or a socket-class connectivity error (both distinguishable from a timeout failure, both translatable by the indexer)".into(),
             "the manager task is run whenever it has been woken and before anything later happens (no scheduler starvation, no spurious polls); only at the deadline instant itself the order is an environment choice".into(),
